@@ -1,7 +1,7 @@
 import DuneVerif.Common.Proto
 import DuneVerif.Model.C13
 /-! line-protocol driver for C13 (format: see harness/mpi_c13.cc)
-    `np=<P> num=<d|c|s|l> ord=<a|f> del=<m|r> [re=<0|s|d>] [comm=<w|d|r0.r1...>] [glob=<i|l>] : <g>=<rank><o|v|c><k|d|a|n>,...;...`
+    `np=<P> num=<d|c|s|l> ord=<a|f> del=<m|r> [re=<0|s|d|e>] [comm=<w|d|r0.r1...>] [glob=<i|l>] : <g>=<rank><o|v|c><k|d|a|n>,...;...`
 
     `comm` names the MPI communicator the harness builds the remote indices on (MPI_COMM_WORLD, a duplicate, or the
     world processes r0, r1, … in this order) and `glob` the C++ type of the global indices.  The model has neither
@@ -125,7 +125,9 @@ def run (np : Nat) (numKind : String) (re : String) (toks : List Tok) : String :
 def parseOpt? (np : Nat) (ts : List String) : Option (String × Option (List Nat)) :=
   let (re, ts) : String × List String :=
     match ts with
-    | t :: rest => if t = "re=0" then ("0", rest) else if t = "re=s" then ("s", rest) else if t = "re=d" then ("d", rest) else ("0", ts)
+    | t :: rest => if t = "re=0" then ("0", rest) else if t = "re=s" then ("s", rest) else if t = "re=d" then ("d", rest)
+      -- `re=e` is `re=d` with the IndicesSyncer object of the first round: one and the same history for the model
+      else if t = "re=e" then ("d", rest) else ("0", ts)
     | [] => ("0", [])
   let (comm?, ts) : Option (Option (List Nat)) × List String :=
     match ts with
